@@ -259,9 +259,12 @@ def sigFromPy(pobj):
     elif isinstance(pobj, bool):
         return 'b'
     elif isinstance(pobj, int):
-        return 'i'
-    elif isinstance(pobj, int):
-        return 'x'
+        if -2**31 <= pobj < 2**31:
+            return 'i'
+        elif -2**63 <= pobj < 2**63:
+            return 'x'
+        else:
+            return 't'
     elif isinstance(pobj, float):
         return 'd'
     elif isinstance(pobj, str):
